@@ -8,8 +8,10 @@ inheritance needs source access).
             "A": {out: {in: [[ "p/q", ...], ...]}},           # dyadic blocks; a missing block is zero
             "c": {out: ["p/q", ...]},                         # constant terms
             "states": {residual: state},                      # optional residual/state pairs
-            "kind": "dense" | "sparse" | "operator",          # representation of the partials
-            "omit_zero": bool}                                # leave structurally zero blocks out of `jac`
+            "kind": "dense" | "csr_array" | "csr_matrix" | "csc_array" | "csc_matrix" | "coo_array" |
+                    "coo_matrix" | "operator" ("sparse" = "csr_array"),   # representation of the partials
+            "omit_zero": bool,                                # leave structurally zero blocks out of `jac`
+            "restrict": bool}                                 # `jac` holds only the requested outputs/inputs
 
 Explicit outputs:   out = c[out] + sum_in A[out][in] @ in.
 Residual/state pairs (``states``): the residual is the affine function
@@ -30,10 +32,27 @@ from fractions import Fraction
 from typing import Any
 
 import numpy as np
+from scipy.sparse import coo_array
+from scipy.sparse import coo_matrix
+from scipy.sparse import csc_array
+from scipy.sparse import csc_matrix
 from scipy.sparse import csr_array
+from scipy.sparse import csr_matrix
 
 from gemseo.core.derivatives.jacobian_operator import JacobianOperator
 from gemseo.core.discipline import Discipline
+
+
+SPARSE_KINDS = {
+    "sparse": csr_array,
+    "csr_array": csr_array,
+    "csr_matrix": csr_matrix,
+    "csc_array": csc_array,
+    "csc_matrix": csc_matrix,
+    "coo_array": coo_array,
+    "coo_matrix": coo_matrix,
+}
+KINDS = ("dense", "operator", *[k for k in SPARSE_KINDS if k != "sparse"])
 
 
 def _mat(rows) -> np.ndarray:
@@ -74,7 +93,10 @@ class LinDisc(Discipline):
             self.io.residual_to_state_variable = dict(self.states)
             self.io.state_equations_are_solved = True
         self.kind = spec.get("kind", "dense")
+        if self.kind not in KINDS and self.kind != "sparse":
+            raise ValueError(f"unknown kind {self.kind!r}")
         self.omit_zero = bool(spec.get("omit_zero", False))
+        self.restrict = bool(spec.get("restrict", False))
         self.A = {o: {i: _mat(m) for i, m in blocks.items()} for o, blocks in spec["A"].items()}
         self.c = {o: np.array([float(Fraction(v)) for v in vec]) for o, vec in spec["c"].items()}
         self.n_lin = 0
@@ -117,8 +139,8 @@ class LinDisc(Discipline):
         return None if m is None else m.copy()
 
     def _wrap(self, m: np.ndarray):
-        if self.kind == "sparse":
-            return csr_array(m)
+        if self.kind in SPARSE_KINDS:
+            return SPARSE_KINDS[self.kind](m)
         if self.kind == "operator":
             return _MatOperator(m)
         return m
@@ -127,6 +149,10 @@ class LinDisc(Discipline):
         self.n_lin += 1
         ins = list(self.io.input_grammar)
         outs = list(self.io.output_grammar)
+        if self.restrict and input_names and output_names:
+            # as most disciplines do: only the requested blocks
+            ins = [i for i in ins if i in set(input_names)]
+            outs = [o for o in outs if o in set(output_names)]
         jac: dict[str, dict[str, Any]] = {}
         for o in outs:
             jac[o] = {}
